@@ -40,6 +40,12 @@ def gen_marks(rng):
 
 def gen_block(rng, contest_ids, layout):
     cons = [{"Id": cid, "Marks": gen_marks(rng)} for cid in contest_ids]
+    for con in cons:
+        # the other per-contest fields of a real export (tallies of the scanner's own interpretation): not marks
+        if rng.random() < 0.5:
+            con["Overvotes"] = rng.choice((0, 0, 1, 2))
+            con["Undervotes"] = rng.choice((0, 1, 3))
+            con["OutstackConditionIds"] = rng.choice(([], [1], [5, 7]))
     if layout == "cards":
         ncards = rng.randint(1, 3)
         cards = [{"Id": k + 1, "PaperIndex": k, "Contests": []} for k in range(ncards)]
